@@ -140,6 +140,7 @@ impl<T: RcObject> AtomicRc<T> {
     /// Panics if `order` is `Release` or `AcqRel`.
     #[inline]
     pub fn load<'g>(&self, order: Ordering, guard: &'g Guard) -> Snapshot<'g, T> {
+        vp!(LINK_LOAD);
         Snapshot::from_raw(self.link.load(order), guard)
     }
 
@@ -150,6 +151,7 @@ impl<T: RcObject> AtomicRc<T> {
     #[inline]
     pub fn store(&self, ptr: Rc<T>, order: Ordering, guard: &Guard) {
         let new_ptr = ptr.ptr;
+        vp!(LINK_SWAP);
         let old_ptr = self.link.swap(new_ptr.with_timestamp(), order);
         // Skip decrementing a strong count of the inserted pointer.
         forget(ptr);
@@ -169,6 +171,7 @@ impl<T: RcObject> AtomicRc<T> {
     #[inline(always)]
     pub fn swap(&self, new: Rc<T>, order: Ordering) -> Rc<T> {
         let new_ptr = new.into_raw();
+        vp!(LINK_SWAP);
         let old_ptr = self.link.swap(new_ptr.with_timestamp(), order);
         Rc::from_raw(old_ptr)
     }
@@ -201,6 +204,7 @@ impl<T: RcObject> AtomicRc<T> {
         let mut expected_raw = expected.ptr;
         let desired_raw = desired.ptr.with_timestamp();
         loop {
+            vp!(LINK_CAS);
             match self
                 .link
                 .compare_exchange(expected_raw, desired_raw, success, failure)
@@ -253,6 +257,7 @@ impl<T: RcObject> AtomicRc<T> {
         let mut expected_raw = expected.ptr;
         let desired_raw = desired.ptr.with_timestamp();
         loop {
+            vp!(LINK_CAS);
             match self
                 .link
                 .compare_exchange_weak(expected_raw, desired_raw, success, failure)
@@ -310,6 +315,7 @@ impl<T: RcObject> AtomicRc<T> {
         let mut expected_raw = expected.ptr;
         let desired_raw = expected_raw.with_tag(desired_tag).with_timestamp();
         loop {
+            vp!(LINK_CAS);
             match self
                 .link
                 .compare_exchange(expected_raw, desired_raw, success, failure)
